@@ -343,6 +343,10 @@ class GriffeLoader:
                     except (ImportError, LoadingError) as error:
                         logger.debug("Could not expand wildcard import %s in %s: %s", member.name, obj.path, error)
                         continue
+                    # Its own wildcard imports were only expanded without loading other packages:
+                    # expand them with the same setting as the rest (a next call would, otherwise).
+                    with suppress(KeyError):
+                        self.expand_wildcards(self.modules_collection.get_member(package), external=external, seen=seen)
 
                 # Try getting the module from which every public object is imported.
                 try:
